@@ -400,7 +400,7 @@ var syncTraceFuncs = []string{
 	"BlockManager.cancelDownloaders", "BlockManager.requestBlock", "BlockManager.removeDownloader",
 	"BlockManager.markBlockRequestComplete",
 	"BitcoinNode.RequestBlock", "BitcoinNode.CancelBlockRequest", "BitcoinNode.handleBlock", "BitcoinNode.completeBlock",
-	"BitcoinNode.IsBusy", "BitcoinNode.Stop", "BitcoinNode.closeConnection",
+	"BitcoinNode.IsBusy", "BitcoinNode.Stop", "BitcoinNode.closeConnection", "BitcoinNode.run",
 }
 
 // lockTrace lists, in source order, every mutex operation of a function (receiver.Method for Lock, Unlock,
@@ -441,6 +441,12 @@ func lockTrace(p *pkgInfo, fd *ast.FuncDecl, withChans bool) []string {
 				if call, ok := x.X.(*ast.CallExpr); ok {
 					if id, ok := call.Fun.(*ast.Ident); ok && id.Name == "close" && len(call.Args) == 1 {
 						out = append(out, "close "+strings.Join(strings.Fields(src(p, call.Args[0])), ""))
+					}
+					// calls of caller-supplied functions (on-stop, handlers): what locks are held around them matters
+					fn := strings.Join(strings.Fields(src(p, call.Fun)), "")
+					low := strings.ToLower(fn)
+					if strings.Contains(low, "onstop") || strings.HasSuffix(low, "handler") || strings.Contains(low, "callback") {
+						out = append(out, "call "+fn)
 					}
 				}
 			}
